@@ -1,3 +1,4 @@
+import TmcgProps.C16Sign
 import TmcgProofs.Tsig
 /-
   C16 — Threshold signatures verify under the jointly generated key.  Property theorems only.
